@@ -52,6 +52,8 @@ CONFIGS = {
     # a state with exactly one injection that defines no callback of its own (I5: state 1) / only enter, update, exit (I6: the initial state)
     'I5':   cfg(N=3, HEAD=1, L=2, CTX=1, INJ=dict(R=1, S0=0, S1=1, S2=2), SPARSE=(1, 1)),
     'I6':   cfg(N=2, HEAD=0, L=2, CTX=0, INJ=dict(S0=1, S1=1), SPARSE=(0, 2)),
+    'I7':   cfg(N=2, HEAD=1, L=2, CTX=0, INJ=dict(R=1, S0=1, S1=2), extra=('VX_INJ_VIRTUAL=1',)),       # polymorphic injections (virtual callbacks)
+    'I8':   cfg(N=3, HEAD=0, L=2, CTX=0, INJ=dict(S0=1, S1=1, S2=3), SPARSE=(1, 2), extra=('VX_INJ_VIRTUAL=1',)),
     # logging
     'G0':   cfg(N=3, HEAD=1, L=2, CTX=1, BARE=1),
     'G1':   cfg(N=3, HEAD=1, L=2, CTX=1, BARE=1, feats=('LOG',)),
@@ -136,7 +138,7 @@ SPECS = {
     thorough=[S('T1', 3, M_T, O_T | og('REPLAY', 'COPY'), W, ['--replica']), S('T2', 3, M_TP, O_T | og('PAYLOAD', 'MANUAL', 'REPLAY', 'COPY', 'SERIAL'), W, ['--replica']), S('T3h', 4, M_T, O_T | og('REPLAY'), flags=['--replica']), S('T4', 2, M_T, O_T | og('REPLAY'), W, ['--replica']),
               S('T5', 2, M_TP, O_T | og('PAYLOAD', 'MANUAL', 'REPLAY', 'COPY', 'SERIAL'), W, ['--replica']), S('T6', 3, M_TP, O_T | og('PAYLOAD', 'REPLAY'), W, ['--replica']), S('P2', 1, M_P0 | mf('PAYLOAD'), O_P | og('PAYLOAD', 'MANUAL', 'REPLAY'), W, ['--replica'])]),
  'C15': dict(
-    quick=[S('I4', 1, M_P0, O_P | og('REACT')), S('I1', 1, M_T, O_T), S('I2', 2, M_T, O_T), S('I3', 2, M_T, O_T), S('I4', 1, M_P0, O_P), S('I5', 2, M_T, O_T), S('I6', 2, M_T, O_T), S('I1', 1, M_T | mf('INJ_DECIDE'), O_T), S('I2', 2, M_T | mf('INJ_DECIDE'), og('CORE')), S('I5', 1, M_T | mf('INJ_DECIDE'), O_T)],
+    quick=[S('I7', 2, M_T, O_T), S('I8', 1, M_T, O_T), S('I4', 1, M_P0, O_P | og('REACT')), S('I1', 1, M_T, O_T), S('I2', 2, M_T, O_T), S('I3', 2, M_T, O_T), S('I4', 1, M_P0, O_P), S('I5', 2, M_T, O_T), S('I6', 2, M_T, O_T), S('I1', 1, M_T | mf('INJ_DECIDE'), O_T), S('I2', 2, M_T | mf('INJ_DECIDE'), og('CORE')), S('I5', 1, M_T | mf('INJ_DECIDE'), O_T)],
     thorough=[S('I1', 2, M_T, O_T, W), S('I2', 3, M_T, O_T, W), S('I3', 3, M_T, O_T), S('I4', 2, M_P0, O_P, W), S('I1', 2, M_T | mf('INJ_DECIDE'), O_T, W), S('I2', 3, M_T | mf('INJ_DECIDE'), O_T, W), S('I5', 3, M_T, O_T, W), S('I6', 3, M_T, O_T, W), S('I5', 2, M_T | mf('INJ_DECIDE'), O_T, W), S('I6', 2, M_T | mf('INJ_DECIDE'), O_T, W)]),
  'C17': dict(
     quick=[S('P8c', 0, M_P0, og('CORE', 'PLAN', 'REPORT', 'COPY'), W, ['--copy']), S('T1', 2, M_T, O_T | og('REPLAY'), flags=['--copy', '--copy-move'], prefills=[0x00, 0xFF]), S('P5', 1, M_P0, O_P, W, ['--copy', '--copy-move']), S('T2', 1, M_TP, O_TALL, flags=['--copy', '--copy-move']), S('T2t', 2, M_TP, O_TALL, flags=['--copy']), S('P5t', 1, M_P, O_PALL, W, ['--copy']), S('N8p', 1, M_P | mf('REPORT_OTHER'), O_PALL, W, ['--copy', '--ids=0,7'], prefills=[0x00, 0xFF]), S('N8', 2, M_T, O_TALL, W, ['--copy', '--ids=0,3,4,7']), S('T1', 2, M_T, O_T | og('REPLAY', 'COPY', 'DESTROY'), flags=['--copy'], prefills=[0x00, 0xFF, 0xA5]), S('T2', 2, M_TP, O_TALL, flags=['--copy'], prefills=[0x00, 0xFF]),
